@@ -292,6 +292,10 @@ func C03(p *load.Prog, r *oblig.Run) {
 		return "", false
 	}
 	runE1(p, r, "R03", entries, tol, 4)
+	recoverObligations(p, r, "R03", entries, 1)
+	// the decoder loop's structural rules (C02): the stack of open nodes starts empty and holds level+1 non-nil nodes,
+	// a read error ends Decode - preconditions of "no nil parent" and of termination
+	c02Rules(p, r)
 
 	// R03.e: error names the line
 	r.Rule("R03.e", "an unparsable line is reported as an error formatted with the line counter", 1)
